@@ -2,6 +2,7 @@ import MaltModel.Rt.Errors
 import MaltModel.Proofs.C12SrcMap
 import MaltModel.Proofs.C12Stack
 import MaltModel.Proofs.C12Check
+import MaltModel.Proofs.C12Nested
 /-!
 # C12 — errors in converted code are reported at the original source location
 
@@ -428,6 +429,74 @@ theorem C12_cause_preserved (excName excStr api : String) (ls : List Level) (pre
       obtain ⟨_, _, _, hc⟩ := C12_chain_adds_one _ _ _ _ _ _ hmd'
       exact hc
 
+/-- **Nested wrappers accumulate.** An exception travelling outwards through any interleaving of
+converted calls (`some a`: `_attach_error_metadata` runs) and `malt.convert` wrappers (`none`: the
+exception is re-created by `to_exception` and raised anew — with whatever traceback) ends up with
+one converted entry per converted call, innermost first, after the frames below the innermost site;
+the cause message is the innermost one.  The wrappers change nothing in the metadata: the proof uses
+that `to_exception` does not mark the new exception `ag_pass_through`
+(`Gen.Errors.toExceptionSetsPassThrough = false`, read from the source on every run) — with the mark
+set, `_attach_error_metadata` would skip every enclosing level. -/
+theorem C12_nested_accumulates (en es api : String) (a0 : ALevel) (rest : List (Option ALevel))
+    (h0 : a0.ok) (hr : ∀ a, some a ∈ rest → a.ok) :
+    runEvents en es api (evOf (some a0) :: rest.map evOf) ⟨none, false⟩ =
+      some ⟨some ⟨elide api a0.below.reverse [] ++
+                  FrameInfo.ofOrigin a0.siteOrigin :: (rest.filterMap id).map (fun a => FrameInfo.ofOrigin a.siteOrigin),
+                 en ++ ": " ++ es⟩, false⟩ := by
+  have hat := attach_ok en es api a0 h0 none
+  have hlv : a0.level.map = a0.map := rfl
+  simp only [evOf, runEvents, attachState, Bool.and_false, hlv, hat]
+  simp only [Bool.false_eq_true, if_false, Option.map_some]
+  rw [runEvents_accumulates en es api rest _ hr]
+  simp
+
+/-- One converted entry per converted call on the path, however many wrappers lie in between. -/
+theorem C12_nested_entry_count (en es api : String) (a0 : ALevel) (rest : List (Option ALevel))
+    (h0 : a0.ok) (hr : ∀ a, some a ∈ rest → a.ok) :
+    ∃ st, runEvents en es api (evOf (some a0) :: rest.map evOf) ⟨none, false⟩ = some st ∧
+      ∃ md, st.md = some md ∧ (md.stack.filter (·.converted)).length = 1 + (rest.filterMap id).length := by
+  refine ⟨_, C12_nested_accumulates en es api a0 rest h0 hr, _, rfl, ?_⟩
+  rw [List.filter_append]
+  have h1 : (elide api a0.below.reverse []).filter (·.converted) = [] := by
+    rw [List.filter_eq_nil_iff]
+    intro fi hfi
+    simp [elide_not_converted api _ [] (by simp) fi hfi]
+  have h2 : ∀ l : List ALevel, (l.map (fun a => FrameInfo.ofOrigin a.siteOrigin)).filter (·.converted)
+      = l.map (fun a => FrameInfo.ofOrigin a.siteOrigin) := by
+    intro l
+    rw [List.filter_eq_self]
+    intro fi hfi
+    obtain ⟨a, _, rfl⟩ := List.mem_map.mp hfi
+    rfl
+  have hc : (FrameInfo.ofOrigin a0.siteOrigin).converted = true := rfl
+  rw [h1, List.nil_append, List.filter_cons, if_pos hc, h2]
+  simp
+  omega
+
+section nested_examples
+private def nApi := "/repo/malt/impl/api.py"
+private def nU := "/u/n1.py"
+private def oLeaf : Origin := ⟨nU, 5, 8, some "leaf", "raise KeyError('k%d' % x)"⟩
+private def oRelay : Origin := ⟨nU, 9, 4, some "relay", "y = LEAF(x)"⟩
+private def oEntry : Origin := ⟨nU, 15, 8, some "entry", "t += RELAY(x)"⟩
+private def cc : Frame := ⟨nApi, 377, "converted_call", ""⟩
+/-- leaf converted by its own wrapper, relay and entry by the outer one; the inner wrapper raised a fresh
+`StagingError`, so the outer levels see only the wrapper's frame below their sites. -/
+private def aLeaf : ALevel := ⟨[(⟨"/tmp/g_leaf.py", 18⟩, oLeaf)], cc, [⟨"/tmp/g_leaf.py", 22, "ag__leaf", ""⟩], ⟨"/tmp/g_leaf.py", 18, "if_body", ""⟩, [], oLeaf⟩
+private def aRelay : ALevel := ⟨[(⟨"/tmp/g_relay.py", 10⟩, oRelay)], cc, [], ⟨"/tmp/g_relay.py", 10, "ag__relay", ""⟩,
+  [⟨nApi, 331, "converted_call", ""⟩, ⟨nApi, 459, "_call_unconverted", ""⟩, ⟨nApi, 629, "wrapper", ""⟩], oRelay⟩
+private def aEntry : ALevel := ⟨[(⟨"/tmp/g_entry.py", 30⟩, oEntry)], cc, [⟨"/tmp/g_entry.py", 40, "ag__entry", ""⟩], ⟨"/tmp/g_entry.py", 30, "loop_body", ""⟩,
+  [cc, ⟨"/tmp/g_relay.py", 10, "ag__relay", ""⟩, ⟨nApi, 629, "wrapper", ""⟩], oEntry⟩
+example : aLeaf.ok ∧ (∀ a, some a ∈ [none, some aRelay, some aEntry, none] → a.ok) := by
+  refine ⟨by decide, ?_⟩
+  intro a ha
+  simp at ha
+  rcases ha with rfl | rfl <;> decide
+example : ((runEvents "KeyError" "'k1'" nApi ([some aLeaf, none, some aRelay, some aEntry, none].map evOf) ⟨none, false⟩).bind (·.md)).map
+      (fun md => md.stack.map FrameInfo.loc)
+    = some [(nU, some "leaf", 5), (nU, some "relay", 9), (nU, some "entry", 15)] := by decide
+end nested_examples
+
 /-! ## 4. Type and message of the re-created exception -/
 
 /-- **Decision table**, stated outright (this is the whole of `ErrorMetadataBase.create_exception` +
@@ -474,6 +543,25 @@ theorem C12_type_partial (t : ExcType) (hwf : t.wf = true) (hcls : inheritsBuilt
       by_cases hke : name = "KeyError" <;> by_cases hkb2 : nb = "KeyError" <;>
       cases ud <;> cases me <;> cases ie <;> cases ui <;> cases kn <;> cases kb <;> simp_all
 
+/- FULL STATEMENT (false of the pinned code, see `C12_type_nested_counterexample`):
+   ∀ t n, (rewriteN t n) = typeAfter t (createException t)   — further wrappers never change the type again. -/
+
+/-- Nested wrappers re-create an already re-created exception: for every type the first rewrite does
+not turn into the `KeyError` stand-in, all later rewrites keep the type the first one chose. -/
+theorem C12_type_nested_partial (t : ExcType) (h : createException t ≠ Created.keyErrorSubclass) (n : Nat) :
+    rewriteN t n = typeAfter t (createException t) := by
+  have hfix : createException (typeAfter t (createException t)) = Created.sameType := by
+    cases hc : createException t with
+    | sameType => simpa [typeAfter] using hc
+    | keyErrorSubclass => exact absurd hc h
+    | staging => simp [typeAfter, createException]
+  induction n with
+  | zero => rfl
+  | succ n ih =>
+    show typeAfter (rewriteN t n) (createException (rewriteN t n)) = _
+    rw [ih, hfix]
+    rfl
+
 section type_examples
 /-- `class U(Exception): pass` keeps its type; `ZeroDivisionError` (own slot wrapper, not in the list)
 becomes `StagingError`; `KeyError` becomes the same-named subclass; `ValueError` is in the list. -/
@@ -495,6 +583,12 @@ re-created as `StagingError` (`W.__init__` is `ValueError.__init__`, not `Except
 `W` itself is not in the list). -/
 theorem C12_type_counterexample :
     tW.wf = true ∧ expectedSame tW = true ∧ createException tW = .staging ∧ inheritsBuiltinInit tW = true := by decide
+/-- COUNTEREXAMPLE (known finding `C12-nested-keyerror`): a `KeyError` raised below two nested wrappers reaches
+the caller as `StagingError` — the second wrapper sees `MultilineMessageKeyError`, which is neither
+`KeyError` itself nor a type with a plain initialiser. -/
+theorem C12_type_nested_counterexample :
+    createException tKey = .keyErrorSubclass ∧ (rewriteN tKey 0).name = "KeyError" ∧
+    (rewriteN tKey 1).name = "StagingError" ∧ rewriteN tKey 1 ≠ typeAfter tKey (createException tKey) := by decide
 end type_examples
 
 /-- **Message carried**: every line of the original `"<Type>: <message>"` appears (indented) in the new
